@@ -109,7 +109,7 @@ func eqTree(in, out *common.MNode, path string) string {
 		return fmt.Sprintf("%q: type %q became %q", path, ri.Type, ro.Type)
 	}
 	if !in.Implicit && !out.Implicit {
-		if ri.Mode != ro.Mode || ri.UID != ro.UID || ri.GID != ro.GID || ri.MTime != ro.MTime {
+		if ri.Mode != ro.Mode || ri.UID != ro.UID || ri.GID != ro.GID || ri.MTime != ro.MTime || ri.Uname != ro.Uname || ri.Gname != ro.Gname {
 			return fmt.Sprintf("%q: mode/owner/mtime %o %d:%d %d became %o %d:%d %d", path, ri.Mode, ri.UID, ri.GID, ri.MTime, ro.Mode, ro.UID, ro.GID, ro.MTime)
 		}
 		if len(ri.Xattrs) != len(ro.Xattrs) {
@@ -175,6 +175,7 @@ func run(t *testing.T, tape *simrt.Tape) *hx.Outcome {
 	c := func(n int) int { return tape.Draw("cfg", n) }
 	cs := []int{8, 17, 64, 50}[c(4)]
 	spec := common.GenTar(d, tape.Seed, common.GenOpts{ChunkSize: cs, MaxEntries: 12, OddNames: d(3) == 0, BigFiles: d(3) == 0})
+	spec.OwnerNames = c(2) == 0
 	tarB := spec.Bytes()
 	model, err := common.Model(tarB)
 	if err != nil {
@@ -428,6 +429,55 @@ func run(t *testing.T, tape *simrt.Tape) *hx.Outcome {
 		return fail("toc-digest", "reported TOC digest %s, the TOC found through the footer hashes to %s", tocDgst, r.TOCDigest())
 	}
 	bad := ""
+	// the TOC describes every entry with the metadata of its tar header
+	model.Walk(func(n *common.MNode) {
+		if bad != "" || n.Path == "" || n.Implicit || special(n.Path) {
+			return
+		}
+		e, ok := r.Lookup(n.Path)
+		if !ok {
+			bad = fmt.Sprintf("%q is not in the TOC", n.Path)
+			return
+		}
+		rn := n.Resolve()
+		if e.UID != rn.UID || e.GID != rn.GID || e.Uname != rn.Uname || e.Gname != rn.Gname {
+			bad = fmt.Sprintf("%q: tar header owner %d(%q):%d(%q), TOC says %d(%q):%d(%q)", n.Path, rn.UID, rn.Uname, rn.GID, rn.Gname, e.UID, e.Uname, e.GID, e.Gname)
+			return
+		}
+		if e.ModTime().Unix() != rn.MTime {
+			bad = fmt.Sprintf("%q: tar header mtime %d, TOC says %d", n.Path, rn.MTime, e.ModTime().Unix())
+			return
+		}
+		if int64(e.Stat().Mode().Perm()) != rn.Mode&0777 {
+			bad = fmt.Sprintf("%q: tar header permissions %o, TOC says %o", n.Path, rn.Mode&0777, e.Stat().Mode().Perm())
+			return
+		}
+		switch rn.Type {
+		case tar.TypeReg:
+			if e.Size != int64(len(rn.Data)) {
+				bad = fmt.Sprintf("%q: %d bytes in the tar, TOC size %d", n.Path, len(rn.Data), e.Size)
+			}
+		case tar.TypeSymlink:
+			if e.LinkName != rn.Link {
+				bad = fmt.Sprintf("%q: link target %q, TOC says %q", n.Path, rn.Link, e.LinkName)
+			}
+		case tar.TypeChar, tar.TypeBlock:
+			if int64(e.DevMajor) != rn.Major || int64(e.DevMinor) != rn.Minor {
+				bad = fmt.Sprintf("%q: device %d:%d, TOC says %d:%d", n.Path, rn.Major, rn.Minor, e.DevMajor, e.DevMinor)
+			}
+		}
+		if bad == "" && len(e.Xattrs) != len(rn.Xattrs) {
+			bad = fmt.Sprintf("%q: %d xattrs in the tar, %d in the TOC", n.Path, len(rn.Xattrs), len(e.Xattrs))
+		}
+		for k, v := range rn.Xattrs {
+			if bad == "" && string(e.Xattrs[k]) != v {
+				bad = fmt.Sprintf("%q: xattr %q differs between tar and TOC", n.Path, k)
+			}
+		}
+	})
+	if bad != "" {
+		return fail("toc-metadata", "%s", bad)
+	}
 	model.Walk(func(n *common.MNode) {
 		if bad != "" || n.Type != tar.TypeReg || n.Path == "" || special(n.Path) {
 			return
